@@ -292,7 +292,7 @@ func (p *Program) EnumPathsStop(start *ssa.BasicBlock, stop map[*ssa.BasicBlock]
 				} else {
 					take = []int{1}
 				}
-			} else if val, known := tmp.decidedEarlier(ifi.Cond, at); known {
+			} else if val, known := tmp.decidedEarlier(p, ifi.Cond, at); known {
 				if val {
 					take = []int{0}
 				} else {
@@ -337,7 +337,7 @@ func (p *Program) EnumPathsStop(start *ssa.BasicBlock, stop map[*ssa.BasicBlock]
 // decidedEarlier prunes a branch "x == nil" / "x != nil" (after Phi
 // resolution along the path) when the same resolved value was already tested
 // against nil by an earlier branch of the path, or is a nil constant.
-func (pa *Path) decidedEarlier(cond ssa.Value, at int) (bool, bool) {
+func (pa *Path) decidedEarlier(p *Program, cond ssa.Value, at int) (bool, bool) {
 	neg := false
 	for {
 		cond = pa.ResolveAt(cond, at)
@@ -361,6 +361,9 @@ func (pa *Path) decidedEarlier(cond ssa.Value, at int) (bool, bool) {
 	}
 	if isNilConst(x) {
 		return (b.Op == token.EQL) != neg, true
+	}
+	if p != nil && p.definitelyNonNil(x, 0) {
+		return (b.Op == token.NEQ) != neg, true
 	}
 	// search earlier branches
 	for i := 0; i < at; i++ {
